@@ -42,6 +42,12 @@ def run(ctx):
     q = ctx.tier == "quick"
     matrix = e1.quick_matrix() if q else e1.thorough_matrix()
     matrix = [i for i in matrix if i["flavour"] == "fixed"] + [i for i in matrix if i["flavour"] != "fixed"][:3]
+    # at(i): every size_type width and signedness (indices at the top of the range and at the sign boundary are probed
+    # from every state, see explore_vec.cpp observe)
+    I = e1.inst
+    matrix += [I("vector", 0, "TC4", st="uint64_t", L=2, opts=["--few-ranges"]), I("small", 2, "TR", st="int64_t", L=3, opts=["--few-ranges"]),
+               I("fixed", 3, "NTR", st="uint64_t", L=3, opts=["--few-ranges"]), I("small", 2, "TC1", st="int16_t", L=2, opts=["--few-ranges"]),
+               I("vector", 0, "NTR", st="int32_t", L=2, opts=["--few-ranges"])]
     cov = e1.explore(ctx, matrix, ["C08"])
     gm = grid_matrix(q)
     vlib.pmap(lambda i: vlib.build("grid_c08.cpp", e1.flags(i), "g08-" + e1.name(i)), gm)
